@@ -227,11 +227,12 @@ func (i *impl) openStream(st *stream) {
 			return
 		}
 		st.down, st.id = d, d.ID
-		for _, r := range i.b.LogFrom(0) {
-			if o, ok := r.Msg.(*message.DownstreamOpenRequest); ok {
-				st.alias = o.DesiredStreamIDAlias // the last open request is this stream's
-			}
+		// the alias this stream asked for: recorded by the broker under the stream id it assigned (several opens may complete at once)
+		i.b.Lock()
+		if ds := i.b.Downs[d.ID]; ds != nil {
+			st.alias = ds.Alias
 		}
+		i.b.Unlock()
 	}
 	atomic.StoreInt32(&st.attached, int32(i.curInc()))
 	st.opened = true
@@ -396,11 +397,10 @@ func (i *impl) summary() string {
 		strings.Join(ss, " "), strings.Join(sent, " "), strings.Join(pend, " "), popen, strings.Join(failed, " "), strings.Join(res, " "), nd)
 }
 
-// attemptWaiting: a redial attempt sits at the gate (it has been counted by the broker and not yet released)
+// attemptWaiting: an attempt the events so far account for is in progress (it sits at the gate, or is about to). An attempt
+// that the library started early - the back-off elapsed before the harness issued its `backoff` event - does not count yet.
 func (i *impl) attemptWaiting() bool {
-	i.b.Lock()
-	defer i.b.Unlock()
-	return i.b.Dials > i.released
+	return i.ackAttempts > i.released
 }
 
 func (i *impl) releaseAttempt(outcome string) {
